@@ -548,6 +548,17 @@ def run_case(case, root):
                             C['bytes'][slot] = b
                         else:
                             C['bytes'].pop(slot, None)
+                    # an undo can bring back a root that references an object a previous undo has un-created
+                    # (C06's subject): a dangling reference, nothing to read there
+                    for slot, oid in list(C['linked'].items()):
+                        if hist.get(oid) and hist[oid][-1][1] is None:
+                            del C['linked'][slot]
+                            C['bytes'].pop(slot, None)
+                            cnt('undo:dangling-reference')
+                    # a slot may name another object now (creation undone, an earlier object of the slot redone)
+                    for slot, oid in C['linked'].items():
+                        if hist.get(oid) and hist[oid][-1][1] is not None:
+                            C['bytes'][slot] = hist[oid][-1][1]
                 txns.append(dict(tid=tid, oids=oids, root_before=root_before, linked_after=dict(C['linked'])))
                 reset_view()
                 # identity of the objects now linked (observation of identity only)
@@ -555,6 +566,9 @@ def run_case(case, root):
                     if slot not in C['bytes']:
                         del objs[slot]
                 c0.sync()
+                for slot, oid in C['linked'].items():
+                    if slot in objs and objs[slot]._p_oid != p64(oid):
+                        del objs[slot]                      # the slot names another object now
                 for slot in C['linked']:
                     if slot not in objs:
                         try:
